@@ -20,7 +20,13 @@ enum EnvOp {
     Remove(u32),
     Arrive(u32, u32),
     Close(u32),
+    /// the executor's cooperative budget runs out: until the current (or next) top-level poll
+    /// returns, every stream poll wakes its own waker and returns `Pending` (tokio's coop budget)
+    Exhaust,
 }
+
+/// a `poll_next` call that polls its streams more often than this is spinning
+const SPIN_LIMIT: usize = 20_000;
 
 #[derive(Default)]
 struct Peer {
@@ -34,6 +40,10 @@ struct Peer {
 #[derive(Default)]
 struct World {
     peers: HashMap<u32, Peer>,
+    exhausted: bool,
+    /// stream polls since the current top-level poll started
+    polls: usize,
+    livelock: bool,
 }
 
 type Shared = Arc<Mutex<World>>;
@@ -77,6 +87,7 @@ fn apply(world: &Shared, handle: &FairQueueHandle<ScriptStream, u32>, op: &EnvOp
                 w.wake();
             }
         }
+        EnvOp::Exhaust => world.lock().unwrap().exhausted = true,
         EnvOp::Close(k) => {
             let w = {
                 let mut w = world.lock().unwrap();
@@ -108,8 +119,21 @@ impl Stream for ScriptStream {
         }
         let res = {
             let mut w = me.world.lock().unwrap();
+            w.polls += 1;
+            if w.polls > SPIN_LIMIT {
+                w.livelock = true;
+                drop(w);
+                panic!("poll_next is spinning");
+            }
+            let exhausted = w.exhausted;
             let p = w.peers.entry(me.k).or_default();
-            if let Some(i) = p.q.pop_front() {
+            if exhausted {
+                // budget exhausted: wake ourselves, yield nothing (what `tokio::task::coop` makes
+                // every tokio resource do)
+                drop(w);
+                cx.waker().wake_by_ref();
+                Poll::Pending
+            } else if let Some(i) = p.q.pop_front() {
                 Poll::Ready(Some(i))
             } else if p.closed {
                 Poll::Ready(None)
@@ -150,6 +174,7 @@ fn parse_env(words: &[&str]) -> Option<EnvOp> {
         Some("remove") => Some(EnvOp::Remove(n(1)?)),
         Some("arrive") => Some(EnvOp::Arrive(n(1)?, n(2)?)),
         Some("close") => Some(EnvOp::Close(n(1)?)),
+        Some("exhaust") => Some(EnvOp::Exhaust),
         _ => None,
     }
 }
@@ -167,7 +192,7 @@ impl FqEngine {
                 *self = FqEngine::new();
                 format!("case {}", words.get(1).unwrap_or(&""))
             }
-            "insert" | "remove" | "arrive" | "close" => match parse_env(words) {
+            "insert" | "remove" | "arrive" | "close" | "exhaust" => match parse_env(words) {
                 Some(op) => {
                     apply(&self.world, &self.handle, &op);
                     format!("ok wakes={}", self.wakes.0.load(Ordering::SeqCst))
@@ -195,8 +220,18 @@ impl FqEngine {
             "poll" => {
                 let w = waker(self.wakes.clone());
                 let mut cx = Context::from_waker(&w);
+                self.world.lock().unwrap().polls = 0;
                 let r = std::panic::catch_unwind(std::panic::AssertUnwindSafe(|| self.probe.poll_next(&mut cx)));
                 let wk = self.wakes.0.load(Ordering::SeqCst);
+                let livelock = {
+                    let mut w = self.world.lock().unwrap();
+                    // the call has returned: the executor runs and the budget is refreshed
+                    w.exhausted = false;
+                    std::mem::take(&mut w.livelock)
+                };
+                if livelock {
+                    return format!("LIVELOCK stream-polls>{}", SPIN_LIMIT);
+                }
                 match r {
                     Ok(Poll::Pending) => format!("pending wakes={}", wk),
                     Ok(Poll::Ready(Some((k, i)))) => format!("ready {} {} wakes={}", k, i, wk),
